@@ -50,7 +50,7 @@ func init() {
 		{Name: "arr-no-checkrows", File: "proto/col_arr.go", Old: "\tif err := checkRows(size); err != nil {\n\t\treturn errors.Wrap(err, \"array size\")\n\t}\n", New: "", Rule: "C06.rows", Construct: "ColArr"},
 		{Name: "lc-no-key-range", File: "proto/col_low_cardinality.go", Old: "if int64(idx) >= indexRows || idx < 0 {", New: "if idx < 0 {", Rule: "C06.index", Construct: "ColLowCardinality"},
 		{Name: "blockinfo-continue-on-unknown", File: "proto/block.go", Old: "\t\tdefault:\n\t\t\treturn errors.Errorf(\"unknown field %d\", f)", New: "\t\tdefault:\n\t\t\tfor f > 1000 {\n\t\t\t}", Rule: "C06.loops", Construct: "BlockInfo"},
-		{Name: "enum-panics", File: "proto/col_enum.go", Old: "func (e *ColEnum) DecodeColumn(r *Reader, rows int) error {\n", New: "func (e *ColEnum) DecodeColumn(r *Reader, rows int) error {\n\tif rows < 0 {\n\t\tpanic(\"negative rows\")\n\t}\n", Rule: "C06.panic", Construct: "ColEnum"},
+		{Name: "blockinfo-panics-on-unknown-field", File: "proto/block.go", Old: "\t\tdefault:\n\t\t\treturn errors.Errorf(\"unknown field %d\", f)", New: "\t\tdefault:\n\t\t\tpanic(fmt.Sprintf(\"unknown field %d\", f))", Rule: "C06.panic", Construct: "BlockInfo"},
 		{Name: "arr-offsets-unchecked", File: "proto/col_arr.go", Old: "\t\t\treturn errors.Errorf(\"offset [%d] (%d) is less than previous (%d)\", i, offset, prev)\n", New: "\t\t\t_ = i\n", Rule: "C06.index", Construct: "offsets/ColArr"},
 	}
 	mutants["C07"] = []Mutant{
@@ -108,7 +108,7 @@ func init() {
 		{Name: "readraw-bypasses-selection", File: "proto/reader.go", Old: "\tif err := r.readFull(n); err != nil {\n\t\treturn nil, errors.Wrap(err, \"read full\")\n\t}\n", New: "\tr.b.Ensure(n)\n\tif _, err := io.ReadFull(r.raw, r.b.Buf); err != nil {\n\t\treturn nil, errors.Wrap(err, \"read full\")\n\t}\n", Rule: "C15.source", Construct: "ReadRaw"},
 		{Name: "safe-uint32-size", File: "proto/col_uint32_safe_gen.go", Old: "\tconst size = 32 / 8\n\tdata, err := r.ReadRaw(rows * size)", New: "\tconst size = 16 / 8\n\tdata, err := r.ReadRaw(rows * size)", Rule: "C15.width", Construct: "ColUInt32"},
 		{Name: "safe-big-endian", File: "proto/col_uint16_safe_gen.go", Old: "\t\t\tbinary.LittleEndian.Uint16(data[i:i+size]),", New: "\t\t\tbinary.BigEndian.Uint16(data[i:i+size]),", Rule: "C15.endian", Construct: "ColUInt16"},
-		{Name: "uint128-halves-swapped", File: "proto/int128.go", Old: "binary.LittleEndian.PutUint64(b[:64/8], v.Low)", New: "binary.LittleEndian.PutUint64(b[:64/8], v.High)", Rule: "C15.endian", Construct: "binPutUInt128"},
+		{Name: "uint128-halves-swapped", File: "proto/int128.go", Old: "binary.LittleEndian.PutUint64(b[0:64/8], v.Low)", New: "binary.LittleEndian.PutUint64(b[0:64/8], v.High)", Rule: "C15.endian", Construct: "binPutUInt128"},
 		{Name: "safe-bool-no-validation", File: "proto/col_bool_safe.go", Old: "\t\tdefault:\n\t\t\treturn errors.Errorf(\"[%d]: bad value %d for Bool\", i, data[i])", New: "\t\tdefault:\n\t\t\tv[i] = true", Rule: "C15.shape", Construct: "ColBool.DecodeColumn"},
 	}
 	mutants["C16"] = []Mutant{
